@@ -233,6 +233,16 @@ class StmtOps:
             if cur.kind == 'list' and isinstance(node.op, ast.Add):
                 self.list_extend(cur, rhs, node)
                 return
+            def simple(e):
+                return isinstance(e, (ast.Name, ast.Constant)) or (isinstance(e, ast.Attribute) and simple(e.value))
+            if simple(t.value) and simple(t.slice):
+                # d[k] op= v  ==  d[k] = d[k] op v   (base and index are side-effect free names / attributes)
+                load = ast.Subscript(value=t.value, slice=t.slice, ctx=ast.Load())
+                new = ast.Assign(targets=[ast.Subscript(value=t.value, slice=t.slice, ctx=ast.Store())],
+                                 value=ast.BinOp(left=load, op=node.op, right=node.value))
+                ast.copy_location(new, node)
+                ast.fix_missing_locations(new)
+                return self.ex_Assign(new)
             raise Unsupported('augmented subscript assignment', node)
         else:
             raise Unsupported('augmented assignment target', node)
